@@ -318,8 +318,7 @@ def status (s : Tcb) : State := s.state
 def segmentize (maxSegmentLength : Nat) : Nat → Tcb → Nat → Except String Tcb
   | 0, s, _ => .ok s
   | fuel + 1, s, queuedBytes =>
-    -- let max_bytes = self.snd.wnd as usize - queued_bytes;
-    if s.snd.wnd.toNat < queuedBytes then .error "panic:sub-overflow:segments.max_bytes" else
+    -- let max_bytes = (self.snd.wnd as usize).saturating_sub(queued_bytes);
     let maxBytes := s.snd.wnd.toNat - queuedBytes
     let bytes := min (min maxSegmentLength maxBytes) s.outgoing.text.length
     if bytes = 0 then .ok s else
